@@ -14,7 +14,7 @@ def section(txt, *names):
     return ''
 for s in sorted(os.listdir(R + '/seeded')):
     d = R + '/seeded/' + s
-    if not os.path.isdir(d): continue
+    if not os.path.isdir(d) or not re.match(r'^C\d\d-\d+$', s): continue
     txt = open(d + '/README.md').read() if os.path.exists(d + '/README.md') else ''
     conf = json.load(open(d + '/confirm.json')) if os.path.exists(d + '/confirm.json') else {}
     row = rows.get(s)
